@@ -14,6 +14,12 @@
 //! of children runs under `strace -f -e trace=%file` and every successful file syscall between the
 //! step markers whose lexically resolved path is outside root / data / system prefixes is reported.
 //!
+//! Stored-path injection (`planted_rewind_*`): the checkpoint store lives inside the root, so a well-formed manifest whose
+//! `files[]` entries carry a path of the grammar (`exists` true and false, a clean entry before / after the hostile one,
+//! hostile `id` / `session_id` fields) is planted under the session's store directory — through the system's own `write`
+//! tool (runner / router) or directly on disk — and then rewound by id with each driver; monitors (1)-(4) judge the
+//! rewind step (the plant is a legitimate in-root write, role "setup").
+//!
 //! Policy notes: for checkpoint `files[]` an absolute path that lies lexically inside the root (no `..`)
 //! is legitimate (C14 quantifies over it, the repo's tests use it) and is not required to be refused;
 //! log artifacts a task creates under `.rip/artifacts` before refusing its cwd are counted, not judged.
@@ -212,8 +218,43 @@ pub const KINDS: &[&str] = &[
     "read", "write", "write_router", "ls", "grep", "patch_add", "patch_delete", "patch_update", "patch_move", "ws_patch",
     "cp_create_direct", "cp_create_runner", "cp_create_router", "cp_roundtrip_direct", "cp_roundtrip_runner",
     "cp_roundtrip_router", "auto_roundtrip", "rewind_id_direct", "rewind_id_runner", "rewind_id_router", "bash_cwd",
-    "task_cwd", "artifact_fetch_id",
+    "task_cwd", "artifact_fetch_id", "planted_rewind_direct", "planted_rewind_runner", "planted_rewind_router",
 ];
+
+/// Stored-path injection is only generated for paths that resolve — against the root, against the process cwd, and
+/// after trimming — to locations inside this case's own directory: at most four `..`, absolute paths only below
+/// `top`, never with the file-system root as working directory (a defective rewind deletes / overwrites what it
+/// resolves a stored path to).
+fn planted_safe(l: &Layout, cwd: &Path, cwd_name: &str, p: &str) -> bool {
+    if cwd_name == "fsroot" {
+        return false;
+    }
+    let slashed = p.replace('\\', "/");
+    let nul_cut = p.split('\0').next().unwrap_or("").to_string();
+    for cand in [p, p.trim(), slashed.as_str(), slashed.trim(), nul_cut.as_str()] {
+        let path = Path::new(cand);
+        if path.components().filter(|c| matches!(c, Component::ParentDir)).count() > 4 {
+            return false;
+        }
+        // segments that only become `..` on a platform / resolver that treats `\` as a separator
+        if cand.split(['/', '\\']).filter(|s| s.trim() == "..").count() > 4 {
+            return false;
+        }
+        if path.is_absolute() {
+            if !lexical(Path::new("/"), cand).starts_with(&l.top) {
+                return false;
+            }
+        } else if !lexical(&l.root, cand).starts_with(&l.k) || !lexical(cwd, cand).starts_with(&l.k) {
+            return false;
+        }
+    }
+    true
+}
+
+/// (hostile entry recorded as existing, stored copy planted, entry order, id-field variant) of a planted manifest
+fn planted_params(variant: u64) -> (bool, bool, u64, u64) {
+    (variant & 1 == 1, (variant >> 1) & 1 == 0, (variant >> 2) % 3, (variant / 12) % 16)
+}
 
 #[derive(Clone, Debug)]
 struct Meta {
@@ -279,6 +320,31 @@ fn steps_for(kind: &'static str, p: &str, class: &'static str, variant: u64, nex
             let d = &kind["rewind_id_".len()..];
             (vec![json!({"op": "cp_rewind", "driver": d, "id": p})], vec![m("main")])
         }
+        "planted_rewind_direct" | "planted_rewind_runner" | "planted_rewind_router" => {
+            let d = &kind["planted_rewind_".len()..];
+            let (exists, stored, order, idf) = planted_params(variant);
+            let hostile = json!({"path": p, "exists": exists, "stored": exists && stored});
+            let entries = match order {
+                0 => json!([{"path": "a.txt", "exists": true, "stored": true}, hostile]),
+                1 => json!([hostile]),
+                _ => json!([{"path": "new_planted.txt", "exists": false}, hostile, {"path": "sub/b.txt", "exists": true, "stored": true}]),
+            };
+            let outer = Path::new(root).parent().map(|x| x.to_string_lossy().to_string()).unwrap_or_default();
+            let mut plant = json!({"op": "plant_cp", "driver": d, "via": if d == "direct" || variant % 7 == 3 { "fs" } else { "tool" },
+                                   "id": format!("planted-{next_index}"), "entries": entries});
+            match idf {
+                // fields that disagree with the directory the manifest sits in (`<store>/<session>/<id>` joined naively
+                // lands on the foreign checkpoint `outer/evilcp`)
+                13 => plant["manifest_id"] = json!("../../../../evilcp"),
+                14 => {
+                    plant["manifest_session"] = json!("../../..");
+                    plant["manifest_id"] = json!("evilcp");
+                }
+                15 => plant["manifest_id"] = json!(format!("{outer}/evilcp")),
+                _ => {}
+            }
+            (vec![plant, json!({"op": "cp_rewind", "driver": d, "ref": next_index})], vec![m("setup"), m("main")])
+        }
         "bash_cwd" => (vec![tool("runner", "bash", json!({"command": "pwd", "cwd": p}))], vec![m("main")]),
         "task_cwd" => (vec![json!({"op": "task", "args": {"command": "pwd", "cwd": p}})], vec![m("main")]),
         _ => (vec![tool("runner", "artifact_fetch", json!({"id": p}))], vec![m("main")]),
@@ -306,7 +372,9 @@ fn must_refuse(kind: &str, p: &str, root: &Path) -> bool {
         return true;
     }
     if path.is_absolute() {
-        let checkpoint_files = kind.starts_with("cp_create") || kind.starts_with("cp_roundtrip");
+        // (a STORED absolute path below the root is hostile input, but create itself accepts absolute paths below the
+        // root: whether rewind has to refuse it is debatable, so only the outside-effect monitors judge that class)
+        let checkpoint_files = kind.starts_with("cp_create") || kind.starts_with("cp_roundtrip") || kind.starts_with("planted_rewind");
         if checkpoint_files && path.starts_with(root) {
             return false;
         }
@@ -330,6 +398,7 @@ fn family(kind: &str, role: &str) -> &'static str {
         "task_cwd" => "task_cwd",
         "artifact_fetch_id" => "artifact_fetch_id",
         k if k.starts_with("rewind_id") => "checkpoint_rewind_id",
+        k if k.starts_with("planted_rewind") => "checkpoint_rewind_stored_path",
         _ => "checkpoint_create",
     }
 }
@@ -338,9 +407,11 @@ pub fn run(cfg: &Cfg) -> i32 {
     let mut r = Report::new(
         "C13",
         "fault_enumeration",
-        "enumeration of (path-taking argument position [23 kinds: read/write/ls/grep path, patch add/delete/update/move-to \
+        "enumeration of (path-taking argument position [26 kinds: read/write/ls/grep path, patch add/delete/update/move-to \
          via tool and Workspace, checkpoint create files[] via Workspace / ToolRunner / router envelope, create->sentinel \
-         change->rewind round trips, auto-checkpoint of write + rewind, rewind id, bash cwd, task cwd, artifact id] x path \
+         change->rewind round trips, auto-checkpoint of write + rewind, rewind id, bash cwd, task cwd, artifact id, STORED manifest path: a well-formed \
+         manifest with the path in files[] (exists true/false, clean entries around it, hostile id/session_id fields) planted in \
+         the session's store through the write tool or on disk, then rewound via Workspace / ToolRunner / router] x path \
          grammar [23 classes, ~90 strings] x process cwd [root, outer, /, sibling, sub-directory]), one child process per \
          (cwd, block); afterwards seeded random compositions; distinct = (kind, path class, cwd, outcome) tuples observed; \
          non-trivial = the child executed the step and all three manifests/scans were taken",
@@ -440,6 +511,27 @@ fn one_case(cfg: &Cfg, r: &mut Report, base: &Path, idx: u64, strace: bool) {
         for (j, (kind, p)) in d.into_iter().enumerate() {
             pairs.push((kind, p, "directed", j as u64 + 1));
         }
+        // stored-path injection; variant = exists | no-stored-copy << 1 | order << 2 | id-field variant * 12
+        let dp: Vec<(&'static str, String, u64)> = vec![
+            ("planted_rewind_direct", "../sent.txt".into(), 0),        // absent at checkpoint time, after a clean entry
+            ("planted_rewind_runner", "../ws2/peer.txt".into(), 4),    // the only entry
+            ("planted_rewind_router", "../sdir/inner.txt".into(), 8),  // between two clean entries
+            ("planted_rewind_runner", "../sent.txt".into(), 1),        // recorded as existing, stored copy planted
+            ("planted_rewind_direct", "../created_dd.txt".into(), 3),  // recorded as existing, no stored copy
+            ("planted_rewind_direct", format!("{o}/sent.txt"), 0),
+            ("planted_rewind_router", format!("{o}/created_abs.txt"), 1),
+            ("planted_rewind_direct", "sub/../../sent.txt".into(), 8),
+            ("planted_rewind_runner", format!("{r0}/../sent.txt"), 0),
+            ("planted_rewind_direct", "a.txt".into(), 156),            // clean path, id field -> foreign checkpoint
+            ("planted_rewind_direct", "a.txt".into(), 169),            // clean path, session_id + id fields -> foreign checkpoint
+            ("planted_rewind_runner", "a.txt".into(), 181),            // clean path, absolute id field
+            ("planted_rewind_router", "new.txt".into(), 0),            // clean twins
+            ("planted_rewind_runner", "sub/b.txt".into(), 1),
+            ("planted_rewind_direct", format!("{r0}/a.txt"), 0),
+        ];
+        for (kind, p, variant) in dp {
+            pairs.push((kind, p, "directed", variant));
+        }
     } else if block < blocks {
         // stride through the product so that one block mixes kinds and classes
         for j in 0..BLOCK {
@@ -458,11 +550,16 @@ fn one_case(cfg: &Cfg, r: &mut Report, base: &Path, idx: u64, strace: bool) {
             pairs.push((kind, p, class, rng.below(1000)));
         }
     }
+    let before = pairs.len();
+    pairs.retain(|(kind, p, _, _)| !kind.starts_with("planted_rewind") || planted_safe(&l, &cwd, cwd_name, p));
+    r.count("stored_path_pairs_not_generated_for_safety", (before - pairs.len()) as u64);
     // the session's checkpoint directory exists in any workspace that has been used before
     let mut steps: Vec<Value> = vec![json!({"op": "cp_create", "driver": "direct", "files": [format!("{}/a.txt", l.root.to_string_lossy())], "label": "setup"})];
     let mut metas: Vec<Meta> = vec![Meta { kind: "cp_create_direct", path: String::new(), class: "setup", role: "setup" }];
+    let mut variants: Vec<u64> = vec![0];
     for (kind, p, class, variant) in &pairs {
         let (s, m) = steps_for(kind, p, class, *variant, steps.len(), &l.root.to_string_lossy());
+        variants.extend(std::iter::repeat(*variant).take(s.len()));
         steps.extend(s);
         metas.extend(m);
     }
@@ -531,6 +628,23 @@ fn one_case(cfg: &Cfg, r: &mut Report, base: &Path, idx: u64, strace: bool) {
             main_hits = hits.iter().filter_map(|h| h.get("canary").and_then(|x| x.as_str()).map(|s| s.to_string())).collect();
         }
         let frame_kinds = strs("frame_kinds");
+        if meta.kind.starts_with("planted_rewind") && si > 0 {
+            let plant = &results[si - 1];
+            let planted = plant.get("ok").and_then(|x| x.as_bool()) == Some(true);
+            r.count(if planted { "stored_path_manifests_planted" } else { "stored_path_plant_failed" }, 1);
+            if planted {
+                let (exists, stored, order, idf) = planted_params(*variants.get(si).unwrap_or(&0));
+                r.count(if exists { "stored_path_entry_exists_true" } else { "stored_path_entry_exists_false" }, 1);
+                if exists && stored {
+                    r.count("stored_path_entry_with_stored_copy", 1);
+                }
+                r.count(&format!("stored_path_entry_order_{order}"), 1);
+                if idf >= 13 {
+                    r.count("stored_path_manifest_with_hostile_id_fields", 1);
+                }
+                r.count(&format!("stored_path_rewind_{}", if ok { "succeeded" } else { "refused_or_failed" }), 1);
+            }
+        }
         r.count("steps_judged", 1);
         r.count(&format!("family_{fam0}"), 1);
         r.count(&format!("class_{}", meta.class), 1);
@@ -563,7 +677,8 @@ fn one_case(cfg: &Cfg, r: &mut Report, base: &Path, idx: u64, strace: bool) {
         let tail = if coarse == "relative" { format!("{coarse}/{cwd_tag}") } else { coarse.to_string() };
         let witness = |what: &str| {
             json!({"case": idx, "step": si, "cwd": cwd_name, "kind": meta.kind, "role": meta.role, "path": trunc(&meta.path, 300),
-                   "path_class": meta.class, "what": what, "result": res, "root": l.root, "replay_note": "re-run with --replay: the case index and seed regenerate the same child spec"})
+                   "path_class": meta.class, "variant": variants.get(si), "setup_step": if si > 0 && metas[si - 1].role == "setup" { steps.get(si - 1).cloned() } else { None },
+                   "what": what, "result": res, "root": l.root, "replay_note": "re-run with --replay: the case index and seed regenerate the same child spec"})
         };
         let mut outcome = if ok { "ok".to_string() } else { "fail".to_string() };
 
